@@ -2,12 +2,14 @@ module verifharness
 
 go 1.21
 
-require github.com/paulmach/orb v0.0.0
+require (
+	github.com/paulmach/orb v0.0.0
+	go.mongodb.org/mongo-driver v1.11.4
+)
 
 require (
 	github.com/gogo/protobuf v1.3.2 // indirect
 	github.com/paulmach/protoscan v0.2.1 // indirect
-	go.mongodb.org/mongo-driver v1.11.4 // indirect
 )
 
 replace github.com/paulmach/orb => /repo
